@@ -33,6 +33,19 @@ fn c14_format_units_large() {
     assert!(opt("b", 1) == (Some(FixedAt::Base), Base::Binary, 1), "OBL C14.format: b = bytes");
     assert!(opt("ds", 2) == (None, Base::Decimal, 2), "OBL C14.format: flags combine");
 }
+// the base flags are applied after the unit table: `c` / `d` decide the base whatever the spelling of the fixed unit
+// (documentation: `%.0 ck` -> 1639 KB is 1024-based; so is every other fixed unit combined with `c`)
+#[kani::proof]
+#[kani::unwind(10)]
+fn c14_format_precedence() {
+    kani::cover!(true);
+    assert!(opt("ckb", 0) == (Some(FixedAt::Kilo), Base::Windows, 0), "OBL C14.format.precedence: c with kb keeps the conventional (1024-based) base");
+    assert!(opt("cmb", 2) == (Some(FixedAt::Mega), Base::Windows, 2), "OBL C14.format.precedence: c with mb");
+    assert!(opt("cgb", 2) == (Some(FixedAt::Giga), Base::Windows, 2) && opt("ctb", 2) == (Some(FixedAt::Tera), Base::Windows, 2), "OBL C14.format.precedence: c with gb / tb");
+    assert!(opt("cm", 2) == (Some(FixedAt::Mega), Base::Windows, 2) && opt("cg", 2) == (Some(FixedAt::Giga), Base::Windows, 2), "OBL C14.format.precedence: c with m / g");
+    assert!(opt("dk", 2) == (Some(FixedAt::Kilo), Base::Decimal, 2) && opt("dm", 2) == (Some(FixedAt::Mega), Base::Decimal, 2), "OBL C14.format.precedence: d with k / m is 1000-based");
+    assert!(opt("cskb", 0) == (Some(FixedAt::Kilo), Base::Windows, 0), "OBL C14.format.precedence: c and s with kb");
+}
 #[kani::proof]
 #[kani::unwind(10)]
 fn canary_sizefmt_must_fail() { assert!(opt("kb", 0).1 == Base::Binary, "CANARY must fail"); }
